@@ -796,7 +796,23 @@ class Engine:
             yield from self.exec_loop_inv(s, spec, env, mod, clsctx)
             return
         self._need_spec(s)
-        while self.truth(self.eval(s.test, env, mod, clsctx)):
+        nsym = 0
+        while True:
+            p_ = cur()
+            taken0 = len(p_.taken) if p_ is not None else 0
+            c = self.truth(self.eval(s.test, env, mod, clsctx))
+            if p_ is not None and len(p_.taken) > taken0:
+                # a loop without invariant whose condition depends on
+                # symbolic data (decisions were taken to evaluate it):
+                # unrolled a bounded number of times
+                nsym += 1
+                if nsym > self.iter_bound:
+                    p_.bounded.append(
+                        f'loop {getattr(s, "_loop_key", ("?", "?"))[1]!r} '
+                        f'unrolled {self.iter_bound} times')
+                    raise PathAbort('iteration bound')
+            if not c:
+                break
             try:
                 yield from self.exec_block(s.body, env, mod, clsctx)
             except _Break:
